@@ -10,7 +10,12 @@ def run_paginate(which, pages_of_rows, pageby_header, new_page=False, keys=None)
     n = len(pages_of_rows)
     keys = keys or {"g": ["G%d" % i for i in range(n)], "s": ["S%d" % i for i in range(n)]}
     df = minipl.Frame(dict(keys, v=["r%d" % i for i in range(n)]))
-    meta = minipl.Frame({"row_index": list(range(n)), "page": list(pages_of_rows)})
+    starts = [i == 0 or any(keys[k][i] != keys[k][i - 1] for k in ("g",)) for i in range(n)]
+    meta = minipl.Frame({"row_index": list(range(n)), "data_rows": [1] * n, "pageby_header_rows": [1 if s else 0 for s in starts],
+                         "subline_header_rows": [0] * n, "column_header_rows": [0] * n,
+                         "total_rows": [2 if s else 1 for s in starts], "continuation_header_rows": [0 if s else 1 for s in starts],
+                         "page": list(pages_of_rows), "is_group_start": starts,
+                         "is_subline_start": [i == 0 or keys["s"][i] != keys["s"][i - 1] for i in range(n)]})
     cls = [defaults.DefaultPaginationStrategy, grouping.PageByStrategy, grouping.SublineStrategy][which]
     body = NS(page_by=None if which == 0 else ["g"], subline_by=["s"] if which == 2 else None, new_page=new_page,
               pageby_header=pageby_header)
